@@ -142,7 +142,13 @@ def step (line : String) : String :=
         let o := match CB.convNet r raw with
           | .ok rules => "OK:" ++ "|".intercalate (rules.map showCb)
           | .error e => "ERR:" ++ e
-        ans o o true
+        -- the hypothesis of `urlFilter_in_subset`: the host name carries no `*`; the reference
+        -- answer is withheld when a url-filter leaves the Safari subset
+        let hostOk := match r.hostname with | some h => !h.contains '*' | none => true
+        let sp := match CB.convNet r raw with
+          | .ok rules => if rules.all (fun cb => CB.safariOk cb.urlFilter) then o else "OUTSIDE-SUBSET"
+          | .error _ => o
+        ans o sp hostOk
       | _ => "bad-op"
   | ["cbc", item] => match parseCbItem item with
       | some (.cos c) =>
@@ -265,7 +271,7 @@ def step (line : String) : String :=
     | some tags, some attempts, some q, some rules =>
       let st := Store.ofAttempts attempts
       let b := (Blocker.new rules (opt == "1")).useTags tags
-      let d := Spec.caseOK rules q && isAsciiStr q.url
+      let d := Spec.caseOK rules q && Spec.wfRules rules && isAsciiStr q.url
       ans (showVerdict (b.check st q)) ("|".intercalate ((Spec.verdicts rules (dedupS tags) st q).map showVerdict)) d
     | _, _, _, _ => "bad-op"
   -- diagnostics: which rules are not token-sound for the request
